@@ -714,3 +714,50 @@ def check_constant(chk, prog, LOCATION, SCALE):
 def check(chk, prog, LOCATION, SCALE):
     check_typing(chk, prog, LOCATION, SCALE)
     check_constant(chk, prog, LOCATION, SCALE)
+    check_weighted_median(chk, prog)
+
+
+# ---------------------------------------------------------------------------------------------- weighted median: defining inequalities, small scope
+def check_weighted_median(chk, prog):
+    """weighted_median interpreted, through its decorator, on n <= 4 symbolic distinct values (order fixed by a representative point,
+    fed in sorted and in reversed order) with every weight vector over {1, 2, 3}: the result m must satisfy
+    weight(values < m) <= W/2 and weight(values > m) <= W/2, lie in the data range, and equal the ordinary median for equal weights."""
+    import itertools
+    from .abstools import atoms_at, eval_term
+    from .absval import Closure
+    chk.rule("weighted-median-definition", "for all weight vectors over {1,2,3}^n, n <= 4, and symbolic ordered values: the half-weight inequalities hold and equal "
+             "weights give the ordinary median (exact evaluation; the order of the symbolic values is the only thing assumed)")
+    fi = prog.fn(f"{DESC}.weighted_median")
+    bad, cells = [], 0
+    for n in (1, 2, 3, 4):
+        for wts in itertools.product((1, 2, 3), repeat=n):
+            for rev in (False, True):
+                W.reset()
+                syms = [Term.sym(f"a{i}") for i in range(n)]
+                point = {f"a{i}": 10 * i for i in range(n)}
+                order = list(range(n))[::-1] if rev else list(range(n))
+                it = Interp(prog, const_model())
+                old = CTX.atoms
+                CTX.atoms = atoms_at(point)
+                try:
+                    out = it.call(Closure(fi.node, {}, fi.mod, fi.qn), [Arr([syms[i] for i in order]), Arr([wts[i] for i in order])], {})
+                except Raised as e:
+                    bad.append(f"weights {wts}: raises {e}")
+                    continue
+                except Undecided as e:
+                    raise AnalysisError(f"C19: cannot evaluate weighted_median(weights={wts}): {e}")
+                finally:
+                    CTX.atoms = old
+                cells += 1
+                m = eval_term(T(out), point)
+                tot = sum(wts)
+                below = sum(w for i, w in enumerate(wts) if 10 * i < m)
+                above = sum(w for i, w in enumerate(wts) if 10 * i > m)
+                if not (2 * below <= tot and 2 * above <= tot and 0 <= m <= 10 * (n - 1)):
+                    bad.append(f"weights {wts}: m = {out!r} leaves weight {below} below / {above} above of {tot}")
+                if len(set(wts)) == 1:
+                    want = syms[n // 2] if n % 2 else t_div(t_add(syms[n // 2 - 1], syms[n // 2]), Term.const(2))
+                    if not same(out, want):
+                        bad.append(f"equal weights {wts}: m = {out!r}, ordinary median = {want!r}")
+    chk.decide(not bad, "weighted-median-definition", f"weighted_median: half-weight inequalities and equal-weight median on {cells} symbolic cases", f"{fi.qn}::definition", fi.loc(),
+               "; ".join(bad[:4]) + (f" (+{len(bad) - 4} more)" if len(bad) > 4 else ""), witness=dict(failures=bad[:8]), cells=max(cells, 1))
